@@ -898,11 +898,37 @@ class SStr:
         if not isinstance(old, str) or not isinstance(new, str):
             raise Inapplicable("symbolic replace operands")
         if len(old) != 1:
-            raise Inapplicable("multi-character replace on a structured string")
+            return self._replace_multi(old, new)
         for a in self.atoms:
             if not isinstance(a, Lit) and old in a.chars():
                 raise Inapplicable(f"{old!r} may occur inside {a!r}")
         return SStr([Lit(a.s.replace(old, new)) if isinstance(a, Lit) else a for a in self.atoms]).norm()
+
+    def _replace_multi(self, old, new):
+        """multi-character replace: decidable when an occurrence can neither start inside a symbolic atom
+        nor run from a literal into one"""
+        atoms = list(self.atoms)
+        for a in atoms:
+            if not isinstance(a, Lit) and old[0] in a.chars():
+                raise Inapplicable(f"{old!r} may start inside {a!r}")
+        out = []
+        for i, a in enumerate(atoms):
+            if not isinstance(a, Lit):
+                out.append(a)
+                continue
+            nxt = atoms[i + 1] if i + 1 < len(atoms) else None
+            if nxt is not None:
+                following = atoms[i + 1:]
+                for k in range(1, len(old)):
+                    if a.s.endswith(old[:k]) and old[k] in nxt.chars():
+                        # the rest of the pattern would have to come from the following atoms: impossible
+                        # if it needs a character none of them can supply
+                        rest = old[k:]
+                        supply = set().union(*[set(x.s) if isinstance(x, Lit) else set(x.chars()) for x in following])
+                        if all(ch in supply for ch in rest):
+                            raise Inapplicable(f"{old!r} may straddle {a!r} and {nxt!r}")
+            out.append(Lit(a.s.replace(old, new)))
+        return SStr(out).norm()
 
     def isdigit(self):
         lo, hi = self.len_bounds()
